@@ -132,7 +132,17 @@ def factories(rng=None, boundary=False):
             return float(edges[int(rng.integers(len(edges)))])
         return r(lo, hi)
 
-    i = lambda default, lo, hi: int(rng.integers(lo, hi)) if rng is not None else default  # noqa: E731
+    def i(default, lo, hi, edges=()):
+        """Non-default integer; `edges` are values that are the DEFAULT of a sibling class (10 attempts for the Hamiltonian
+        move, 10000 for the others): a serialiser that omits "default" values must know whose default it is."""
+        if boundary and edges:
+            return int(edges[0])
+        if rng is None:
+            return default
+        if edges and rng.random() < 0.25:
+            return int(edges[int(rng.integers(len(edges)))])
+        return int(rng.integers(lo, hi))
+
     b = lambda default: bool(rng.random() < 0.5) if rng is not None else default  # noqa: E731
 
     def mask():
@@ -150,13 +160,13 @@ def factories(rng=None, boundary=False):
     def dmove(op=None):
         m = DisplacementMove(labels(), op or od.Box(f(0.21, 0.01, 2)), apply_constraints=b(False))
         m.default_label = 0 if boundary else (i(3, -2, 9) if rng is None or rng.random() < 0.8 else 0)
-        m.max_attempts = i(7, 1, 50)
+        m.max_attempts = i(7, 1, 50, (10, 1))
         return m
 
     def emove():
         m = ExchangeMove(labels(), od.TranslationRotation(), bias_towards_insert=f(0.3, 0.05, 0.95, (0.0, 1.0)), apply_constraints=b(False))
         m.default_label = 0
-        m.max_attempts = i(7, 1, 50)
+        m.max_attempts = i(7, 1, 50, (10, 1))
         return m
 
     def cmove():
@@ -165,8 +175,8 @@ def factories(rng=None, boundary=False):
         return m
 
     def hmove():
-        m = HamiltonianDisplacementMove(operation=Verlet(dt=f(2.5, 0.1, 5), max_steps=i(7, 1, 50), apply_constraints=b(False)))
-        m.max_attempts = i(4, 1, 9)
+        m = HamiltonianDisplacementMove(operation=Verlet(dt=f(2.5, 0.1, 5), max_steps=i(7, 1, 50, (100, 1)), apply_constraints=b(False)))
+        m.max_attempts = i(4, 1, 9, (10000, 1))
         return m
 
     def cexch():
